@@ -410,9 +410,9 @@ func rewriteSitesOf(p *Prog, fn *ssa.Function) []guardSite {
 					continue
 				}
 				pr := b.Preds[i]
-				g := ""
+				var gl []string
 				if n := len(pr.Instrs); n > 0 {
-					g = strings.Join(guardSet(pr.Instrs[n-1]), " && ")
+					gl = guardSet(pr.Instrs[n-1])
 				}
 				// the edge itself may be the deciding one
 				if iff := ifOf(pr); iff != nil {
@@ -421,12 +421,11 @@ func rewriteSitesOf(p *Prog, fn *ssa.Function) []guardSite {
 						k = 1
 					}
 					if pr.Succs[0] != pr.Succs[1] {
-						if g != "" {
-							g += " && "
-						}
-						g += descCond(iff.Cond, k == 0)
+						gl = append(gl, descCond(iff.Cond, k == 0))
 					}
 				}
+				sort.Strings(gl)
+				g := strings.Join(uniqStrings(gl), " && ")
 				out = append(out, guardSite{fn, "rewrite:" + cname, ph, g})
 			}
 		}
